@@ -404,7 +404,7 @@ fn literals_for(v: &TT) -> Vec<(&'static str, String)> {
     match (v.name, v.w) {
         ("int", _) => vec![("literal", "5".into()), ("negative-literal", "-5".into())],
         ("float", _) => vec![("literal", "2.5".into()), ("negative-literal", "-2.5".into())],
-        ("complex", _) => vec![("literal", "2.5im".into()), ("int-imag-literal", "2im".into())],
+        ("complex", _) => vec![("literal", "2.5im".into()), ("int-imag-literal", "2im".into()), ("negative-literal", "-2.5im".into()), ("spaced-negative-literal", "- 2.5 im".into())],
         ("bool", _) => vec![("literal", "true".into())],
         ("duration", _) => vec![("literal", "10ns".into())],
         ("bit", Some(n)) => {
